@@ -224,8 +224,8 @@ fn gen_records(w: &World, kind: Kind, scale: Scale, magic: Option<usize>, edge_d
         };
         let len = match (scale, magic) {
             (Scale::Large, _) if w.chance(1, 2) => w.range(1, 20_000) as usize,
-            // (1 huge run in 30: one sequence of 8 MiB and more)
-            (Scale::Huge, _) if v.is_empty() && w.chance(1, 30) && w.take_big(24 << 20) => {
+            // (1 huge run in 10: one sequence of 8 MiB and more)
+            (Scale::Huge, _) if v.is_empty() && w.chance(1, 10) && w.take_big(24 << 20) => {
                 w.probe("sequence_of_8_mib_or_more");
                 *w.pick(&[8usize << 20, (8 << 20) + 1, 10_000_000, (8 << 20) + 61])
             }
@@ -360,8 +360,8 @@ fn gen_writer_cfg(w: &World, kind: Kind, recs: &[Rec], magic: Option<usize>) -> 
         }
     };
     let maxlen = recs.iter().map(|r| r.seq.len()).max().unwrap_or(1);
-    // (a chromosome-sized sequence is wrapped 3 times in 4: that is how such records are written)
-    let wrap = if kind == Kind::Fasta && maxlen >= 8 << 20 && w.chance(3, 4) {
+    // (a chromosome-sized sequence is wrapped at a customary width every other time)
+    let wrap = if kind == Kind::Fasta && maxlen >= 8 << 20 && w.chance(1, 2) {
         Some(*w.pick(&[60usize, 70, 80, 61, 1 << 16]))
     } else if kind == Kind::Fasta && w.chance(1, 2) {
         Some(match (w.draw(4), magic) {
